@@ -82,17 +82,23 @@ def mass_model_history(steps, dt, updates=True):
     return True, "ok"
 
 
-def generic_history(seed, steps, dt):
+def generic_history(seed, steps, dt, scale=1.0):
+    """scale: prior variance `scale`, sensor noise `scale**2` (accurate sensors on a small-scale prior make S << 1), process noise `scale`."""
     import numpy as np
     from replay import scenarios
 
     sc = scenarios.Scenario(3, 1, 2, [2, 1], seed=seed)
+    if scale != 1.0:
+        sc.sensor_noises = {k: {r: v * scale * scale for r, v in m.items()} for k, m in sc.sensor_noises.items()}
+        sc.process_noise = {u: v * scale for u, v in sc.process_noise.items()}
     # keep the dynamics bounded: use a contraction-like linearised model
     for s in sc.state:
         sc.state_model[s] = s + sc.dt * sum((0.3 * v for v in sc.state + sc.control), 0) - sc.dt * s
     py, ekf = scenarios.build_ekf(sc)
     pt = sc.point(seed)
     state, cov = scenarios.named_state(ekf, sc, pt), ekf.Covariance()
+    if scale != 1.0:
+        cov = ekf.Covariance.from_data(cov.data * scale)
     ctl = scenarios.named_control(ekf, sc, pt)
     keys = sorted(sc.sensor_models)
     for i in range(steps):
@@ -102,12 +108,12 @@ def generic_history(seed, steps, dt):
             rd = ekf.make_reading(key, **{r: 0.1 * (i % 7) for r in sc.sensor_models[key]})
             state, cov = ekf.sensor_model(state, cov, sensor_key=key, sensor_reading=rd)
         except (AssertionError, ValueError) as e:
-            return False, f"generic model seed {seed}: refused at step {i + 1} (dt={dt}): {(str(e).splitlines() or [type(e).__name__])[0]}"
+            return False, f"generic model seed {seed}, scale {scale}: refused at step {i + 1} (dt={dt}): {(str(e).splitlines() or [type(e).__name__])[0]}"
         c = cov.data
         w = np.linalg.eigvalsh((c + c.T) / 2)
-        scale = max(abs(w).max(), 1e-300)
-        if not np.allclose(c, c.T) or w.min() < -1e-9 * scale:
-            return False, f"generic model seed {seed}, step {i + 1}: covariance invalid (lam_min {w.min():.3e}, scale {scale:.3e})"
+        mag = max(abs(w).max(), 1e-300)
+        if not np.allclose(c, c.T, rtol=1e-7, atol=1e-12 * mag) or w.min() < -1e-9 * mag:
+            return False, f"generic model seed {seed}, prior scale {scale}, step {i + 1}: covariance invalid (lam_min {w.min():.3e}, magnitude {max(abs(w).max(), 1e-300):.3e})"
     return True, "ok"
 
 
@@ -172,12 +178,15 @@ def check(run):
             break
     if not fails:
         for seed in range(3 if run.tier == "thorough" else 1):
-            histories += 1
-            run.native_runs += 1
-            ok, why = generic_history(run.seed + seed, steps // 4, 0.05)
-            if not ok:
-                fails += 1
-                run.findings.append(Finding("C09.py.history.generic_model", "generic-model", why, {"language": "python", "inputs": {"model": "generic", "seed": run.seed + seed, "steps": steps // 4, "dt": 0.05}, "oracle_verdict": why}, True))
+            for scale in (1.0, 1e-2, 1e3) if (run.tier == "thorough" or seed == 0) else (1.0,):
+                histories += 1
+                run.native_runs += 1
+                ok, why = generic_history(run.seed + seed, steps // 4, 0.05, scale)
+                if not ok:
+                    fails += 1
+                    run.findings.append(Finding("C09.py.history.generic_model", "generic-model", why, {"language": "python", "inputs": {"model": "generic", "seed": run.seed + seed, "steps": steps // 4, "dt": 0.05, "scale": scale}, "oracle_verdict": why}, True))
+                    break
+            if fails:
                 break
     run.bounded.append({"what": "native float histories (predict + interleaved updates) through the real filter; oracle: no refusal, covariance symmetric and PSD relative to magnitude", "bound": f"{histories} histories x up to {steps} steps", "failures": fails, "counted_as_proved": False, "seconds": round(time.time() - t0, 1)})
     if run.tier == "thorough":
@@ -193,7 +202,7 @@ def replay_file(payload):
         print("replay mass model history:", why)
         return ok
     if inp.get("model") == "generic":
-        ok, why = generic_history(inp["seed"], inp["steps"], inp["dt"])
+        ok, why = generic_history(inp["seed"], inp["steps"], inp["dt"], inp.get("scale", 1.0))
         print("replay generic history:", why)
         return ok
     verdict, C = native_gate(inp["n"], inp["lam_min"], inp["norm2"])
